@@ -71,6 +71,7 @@ inductive PyErr
   | overflowError
   | stopIteration
   | pathOpsError
+  | attributeError
 deriving Repr, BEq, DecidableEq
 
 def PyErr.name : PyErr → String
@@ -85,6 +86,7 @@ def PyErr.name : PyErr → String
   | .overflowError => "OverflowError"
   | .stopIteration => "StopIteration"
   | .pathOpsError => "PathOpsError"
+  | .attributeError => "AttributeError"
 
 namespace TransformParse
 open Str
